@@ -67,3 +67,21 @@ pub fn add_fabric(matter: &Matter<'_>) {
         state.fabrics.add_with_post_init(|_| Ok(())).unwrap();
     });
 }
+
+/// Give fabric `fab_idx` group key sets: `groups` = (group id, key set id, epoch key byte).
+#[allow(dead_code)]
+pub fn add_group_keys(matter: &Matter<'_>, fab_idx: NonZeroU8, groups: &[(u16, u16, u8)]) {
+    use rs_matter::fabric::GroupKeyMapping;
+    use rs_matter::group_keys::{GroupEpochKeyEntry, GroupKeySet};
+    matter.with_state(|state| {
+        let f = state.fabrics.fabric_mut(fab_idx).unwrap();
+        for (group_id, key_set_id, key_byte) in groups {
+            let mut epoch_key = CanonAeadKey::new();
+            epoch_key.load_from_array(&[*key_byte; 16]);
+            let mut epoch_keys = rs_matter::utils::storage::Vec::new();
+            epoch_keys.push(GroupEpochKeyEntry { epoch_key, epoch_start_time: 0 }).unwrap();
+            f.groups_mut().key_set_add(GroupKeySet { group_key_set_id: *key_set_id, group_key_security_policy: 0, epoch_keys }).unwrap();
+            f.groups_mut().key_map_add(GroupKeyMapping { group_id: *group_id, group_key_set_id: *key_set_id }).unwrap();
+        }
+    })
+}
